@@ -399,6 +399,16 @@ def main_check(pid, tier, seed, write_evidence=True):
         return 2
     names, ok, bad = audit.property_obligations(a, pid)
     obligations_broken = list(bad) + (["forbidden construct: " + h for h in a["forbidden"]])
+    # 1b. obligations generated from the current source: the formulas of the code are the model's (harness/translate.py)
+    gen_names, gen_ok, gen_bad, gen_axioms = [], [], {}, {}
+    try:
+        import translate
+        g = translate.check()
+        gen_names, gen_ok, gen_bad = translate.for_property(g, pid)
+        gen_axioms = {n: g.get("axioms", {}).get(n) for n in gen_ok}
+    except Exception as e:
+        gen_bad = {"<translator>": "%s: %s" % (type(e).__name__, e)}
+    obligations_broken += ["generated obligation gen_%s: %s" % (n, why) for n, why in sorted(gen_bad.items())]
     leanchecker = None
     if tier == "thorough":
         # independent re-check of the compiled proof modules of this property
@@ -582,10 +592,13 @@ def main_check(pid, tier, seed, write_evidence=True):
         ev = {
             "property_id": pid, "tier": tier, "seed": seed, "level": "proof",
             "coverage": {
-                "obligations": len(names), "discharged": len(ok),
+                "obligations": len(names) + len(gen_names), "discharged": len(ok) + len(gen_ok),
                 "checker_cmd": "cd lean && lake build && lake env lean <#print axioms of every listed theorem> (harness/audit.py; cached by source hash: %s)" % ("cache hit" if a.get("cached") else "re-run"),
                 "trusted_base": PLAN.TRUSTED_BASE + spec.get("trusted", []),
-                "theorems": {n: a["theorems"].get(n, {}).get("axioms") for n in names},
+                "theorems": dict({n: a["theorems"].get(n, {}).get("axioms") for n in names},
+                                 **{"Pymoode.Generated.gen_" + n: gen_axioms.get(n) for n in gen_names}),
+                "generated_from_source": {"translator": "harness/translate.py (Python AST of /repo -> Lean terms, proved equal to the model's definitions by rfl / simp on every run)",
+                                          "obligations": gen_names, "discharged": gen_ok, "broken": gen_bad},
                 "leanchecker": leanchecker,
                 "evaluations": evaluations,
                 "distinct_nontrivial": len(sigs),
@@ -608,7 +621,7 @@ def main_check(pid, tier, seed, write_evidence=True):
         os.makedirs(os.path.join(VERIF, "evidence"), exist_ok=True)
         json.dump(ev, open(os.path.join(VERIF, "evidence", pid + ".json"), "w"), indent=1, default=str)
     print("%s tier=%s seed=%d records=%d validated=%d nontrivial=%d obligations=%d/%d violations=%d wall=%.1fs" % (
-        pid, tier, seed, evaluations, validated, len(sigs), len(ok), len(names), n_viol, wall))
+        pid, tier, seed, evaluations, validated, len(sigs), len(ok) + len(gen_ok), len(names) + len(gen_names), n_viol, wall))
     return 1 if n_viol else 0
 
 
